@@ -17,6 +17,7 @@ func heapOddTypes(r *R) {
 	guard := func(op string, f func()) (ok bool) {
 		defer func() {
 			if p := recover(); p != nil {
+				passThrough(p)
 				fail("panic/"+op, "%s panicked with slice-typed elements or priorities: %v", op, p)
 				ok = false
 			}
